@@ -146,6 +146,8 @@ def generate(rnd, tier, scale):
                 s = {"t": "h", "items": gen.rand_h(rnd, 3, "int", allow_zero_total=rnd.random() < 0.06)}
             if via == "pforeach" and s["t"] == "p":
                 s["which"] = None
+            if via in ("expandable", "foreach") and s["t"] == "h" and rnd.random() < 0.2:
+                s["raw"] = rnd.choice(["map", "hable"])  # sources that are not H / P: _source_to_h_or_p_or_p_with_selection
             sources.append(s)
         nacts = rnd.choice([2, 3, 4, 5, 7])
         acts = [rand_ret(rnd) for _ in range(nacts)]
